@@ -15,6 +15,8 @@ import numpy as np
 import pennylane as qp
 import z3
 
+from vf.pyvc.engine import set_budget
+
 from vf.common import Plan, Obligation, Outcome, DISCHARGED, REFUTED, UNDECIDED, FAULT, find_def
 from vf.symx.oblig import identity_obligation
 from vf.symx.scalar import Sym, sym, poly_matrix
@@ -190,7 +192,7 @@ def fingerprint_injective():
         return z3.Concat(*segs) if len(segs) > 1 else segs[0]
     A, B = state("A"), state("B")
     s = z3.Solver()
-    s.set("timeout", 20000)
+    set_budget(s, 20000)
     i = z3.Int("i")
     x = z3.Const("x", IS)
     # pointwise maps (length preserving, elementwise tagged): axioms of the three embeddings
@@ -204,7 +206,7 @@ def fingerprint_injective():
     s.add(z3.Or(*[A[c] != B[c] for c in A]))
     # small-model search first (a refutation needs only short sequences)
     s2 = z3.Solver()
-    s2.set("timeout", 20000)
+    set_budget(s2, 20000)
     for a in s.assertions():
         s2.add(a)
     for st in (A, B):
@@ -242,7 +244,7 @@ def fingerprint_injective():
 
     def unsat(*facts):
         q = z3.Solver()
-        q.set("timeout", 20000)
+        set_budget(q, 20000)
         q.add(*facts)
         return q.check() == z3.unsat
     # step 1: the two trailing single items and the remaining words agree
@@ -329,7 +331,7 @@ def measurement_hash_obligations(plan, tier):
                 same_fp = it.equal(fa, fb)
                 same_data = it.equal(data(oa), data(ob))
                 s = _z3.Solver()
-                s.set("timeout", 20000)
+                set_budget(s, 20000)
                 s.add(*ctx.pc)
                 s.add(same_fp if not isinstance(same_fp, bool) else _z3.BoolVal(same_fp))
                 s.add(_z3.Not(same_data) if not isinstance(same_data, bool) else _z3.BoolVal(not same_data))
